@@ -833,8 +833,20 @@ func (r *vpRunner) genAndRun(g *vpRng, maxOps int, prop string) {
 	case "C07":
 		h.a[4] = g.pick([]int64{1, 2, 100})
 		h.a[5] = g.pick([]int64{1, 2, 3})
+	case "C01", "C02":
+		if g.chance(50) {
+			h.a[3] = 1
+		}
+		if g.chance(50) {
+			h.a[0] = g.pick([]int64{3, 3, 5})
+			h.a[1] = g.pick([]int64{3, 5})
+		}
 	case "C08":
 		h.a[3] = 1
+		if g.chance(60) {
+			h.a[0] = g.pick([]int64{3, 3, 5})
+			h.a[1] = g.pick([]int64{3, 5})
+		}
 	case "C09":
 		h.a[6] = 1
 	case "C03":
@@ -884,8 +896,22 @@ func (r *vpRunner) genAndRun(g *vpRng, maxOps int, prop string) {
 		// directed mini-scenarios (keep the interesting situations frequent)
 		if npk > 0 && g.chance(12) {
 			latest := int64(npk - 1)
-			switch sc := g.intn(6); {
-			case sc == 0 || prop == "C07" && sc < 4:
+			// weighted choice of a scenario, biased by the property under check
+			scn := []string{"deadline", "bind", "saturate", "gate", "standin", "none"}[g.intn(6)]
+			if g.chance(60) {
+				switch prop {
+				case "C07":
+					scn = "deadline"
+				case "C01":
+					scn = []string{"bind", "bind", "standin", "deadline"}[g.intn(4)]
+				case "C08", "C02":
+					scn = []string{"standin", "standin", "bind", "saturate"}[g.intn(4)]
+				case "C03":
+					scn = []string{"gate", "saturate", "saturate"}[g.intn(3)]
+				}
+			}
+			switch {
+			case scn == "deadline":
 				// a call with a short deadline that ends with a client-side deadline-exceeded after the window
 				dl := vpGetNow() + g.pick([]int64{1000000, 2000000})
 				before := len(r.picks)
@@ -902,7 +928,7 @@ func (r *vpRunner) genAndRun(g *vpRng, maxOps int, prop string) {
 					}
 				}
 				continue
-			case sc == 4 || (prop == "C01" || prop == "C08") && sc < 3:
+			case scn == "bind":
 				// bind a key, then use it
 				before := len(r.picks)
 				r.apply(vpOp{kind: "P", a: []int64{latest, 1, 1, -1, 0}})
@@ -917,7 +943,7 @@ func (r *vpRunner) genAndRun(g *vpRng, maxOps int, prop string) {
 					}
 				}
 				continue
-			case os.Getenv("VERIF_NOGATE") == "" && (sc == 3 && g.chance(50) || prop == "C03" && sc < 2) && npk >= 2 && len(r.parkedPicks) == 0:
+			case scn == "gate" && os.Getenv("VERIF_NOGATE") == "" && npk >= 2 && len(r.parkedPicks) == 0:
 				// check-then-create window: a growing call on a superseded picker is parked between its
 				// size check and newSubConn(); meanwhile the pool changes
 				stale := int64(g.intn(npk - 1))
@@ -937,10 +963,16 @@ func (r *vpRunner) genAndRun(g *vpRng, maxOps int, prop string) {
 					}
 				}
 				continue
-			case (sc == 2 && g.chance(60) || (prop == "C02" || prop == "C08" || prop == "C01") && sc < 2) && h.a[3] == 1 && nsc >= 2:
+			case scn == "standin" && h.a[3] == 1 && nsc >= 2:
 				// stale stand-in: bind K, home goes down, a keyed call falls back to a stand-in, K is
 				// unbound while the stand-in mapping exists, then K is used again (as an unknown key, or re-bound)
 				k := 1 + g.intn(nkeys)
+				if g.chance(70) { // several READY channels make the scenario bite
+					for id := 0; id < nsc && id < 6 && !r.dead; id++ {
+						r.apply(vpOp{kind: "C", a: []int64{int64(id), 2}})
+					}
+					latest = int64(len(r.cc.pickers) - 1)
+				}
 				before := len(r.picks)
 				r.apply(vpOp{kind: "P", a: []int64{latest, 1, 1, -1, 0}})
 				if !(len(r.picks) > before && r.picks[before].placed) || r.dead {
@@ -994,7 +1026,7 @@ func (r *vpRunner) genAndRun(g *vpRng, maxOps int, prop string) {
 					}
 				}
 				continue
-			case sc == 5 || prop == "C03" && sc < 3:
+			case scn == "saturate":
 				// saturate: several calls that stay open
 				for q := 0; q < 2+g.intn(4) && !r.dead; q++ {
 					r.apply(vpOp{kind: "P", a: []int64{int64(len(r.cc.pickers) - 1), 0, 1, -1, 0}})
